@@ -166,6 +166,12 @@ def signed (v : Int) : List Nat :=
   | Int.ofNat n => 43 :: decimal n
   | Int.negSucc n => 45 :: decimal (n + 1)
 
+/-- `%d` -/
+def plainInt (v : Int) : List Nat :=
+  match v with
+  | Int.ofNat n => decimal n
+  | Int.negSucc n => 45 :: decimal (n + 1)
+
 /-- `writeValueRecord` -/
 def writeValueRecord : Option VR → List Piece
   | none => [tk tIdentifier kwUnderscore]
@@ -218,6 +224,12 @@ def Explainer.subtable (e : Explainer) (first : Bool) : Subtable → List Piece
       e.classList c2 ++ [semiP] ++
       (adjust.map fun row =>
         [eolP, tab] ++ ((row.map writePairAdjust).intersperse [commaP, sp]).flatten ++ [semiP]).flatten
+
+  | .gpos3_1 cov recs =>
+    (((cov.zip recs).map fun p =>
+      [e.writeGlyph p.1, tk tColon [58], sp, tk tInteger (plainInt p.2.1), commaP, tk tInteger (plainInt p.2.2.1),
+        sp, tk tIdentifier kwTo, sp, tk tInteger (plainInt p.2.2.2.1), commaP, tk tInteger (plainInt p.2.2.2.2)]).zipIdx.map
+      fun q => (if q.2 > 0 then [semiP] else []) ++ (if first || q.2 > 0 then [eolP, tab] else []) ++ q.1).flatten
 
 /-- `" ||\n\t"` -/
 def orSep : List Piece := [sp, tk tOr [124, 124], eolP, tab]
